@@ -1061,6 +1061,16 @@ TEMPLATE_ATOMS = [
 ]
 
 
+def _short(res):
+    """a long rendered text is replaced by its digest on both sides (the glue model only passes the engine's text through)"""
+    if res and res.startswith("out:"):
+        body, sep, err = res[4:].partition("|")
+        if len(body) > 4000:
+            import hashlib
+            return "out:" + hashlib.sha256(body.encode()).hexdigest() + sep + err
+    return res
+
+
 class ExportProp(SimpleProp):
     prop = "C19"
     lean_modules = ["CvssVerif.Props.C19"]
@@ -1112,11 +1122,11 @@ class ExportProp(SimpleProp):
         mops = []
         for op, g in zip(ops, go):
             d = core.parse_kv(g)
-            mops.append("XM %s %s" % (op.split(" ")[4], d.get("ref", "none")))
+            mops.append("XM %s %s" % (op.split(" ")[4], _short(d.get("ref", "none"))))
         return core.run_sharded(core.MODEL, mops)
 
     def cmp(self, g):
-        return core.parse_kv(g).get("lib")
+        return _short(core.parse_kv(g).get("lib"))
 
     def cmp_model(self, m):
         return m
@@ -1179,8 +1189,8 @@ def gen_history(rng, nshared=0, shared_desc=None, maxops=40):
                 if rng.chance(1, 2):
                     # complete and valid, but two tokens swapped (v2: misordered; v3: another spelling, or the prefix moved)
                     tk = s.split("/")
-                    i, j = rng.below(len(tk)), rng.below(len(tk))
-                    tk[i], tk[j] = tk[j], tk[i]
+                    ta, tb = rng.below(len(tk)), rng.below(len(tk))
+                    tk[ta], tk[tb] = tk[tb], tk[ta]
                     s = "/".join(tk)
                 else:
                     p = rng.below(max(1, len(s)))
@@ -1209,6 +1219,10 @@ def gen_history(rng, nshared=0, shared_desc=None, maxops=40):
                 ops.append("X%d,%d" % (i, rng.below(6)))
     for i in range(len(slots)):
         ops.append("Q%d" % i)
+    for o in ops:
+        if o[0] == "D":
+            k = int(o[1:].split(",", 1)[0])
+            assert k < len(slots) and not slots[k][2], "generator bug: decode into a shared or unknown slot"
     return ops, slots
 
 
